@@ -118,7 +118,9 @@ func newAPICase(out *bufio.Writer, id, tag string, cfg gmars.SimulatorConfig, re
 		for i := 0; i < len(key); i++ {
 			h = (h ^ uint32(key[i])) * 16777619
 		}
-		cfg.Mode = []gmars.SimulatorMode{gmars.ICWS94, gmars.ICWS88, gmars.NOP94}[h%3]
+		if cfg.Mode <= gmars.ICWS94 { // a Mode outside the three named values is kept as given
+			cfg.Mode = []gmars.SimulatorMode{gmars.ICWS94, gmars.ICWS88, gmars.NOP94}[h%3]
+		}
 	}
 	if apiTimeouts >= 3 {
 		c.dead, c.skipped = true, true
